@@ -29,7 +29,7 @@ static V gen_scalar(char t) {
     case 'r': v.i = (int32_t)vf::oneof<uint32_t>({0u, 1u, 0x7fffffffu, 0x80000000u, 0xff0000ffu}); break;
     case 'm': v.i = (int32_t)vf::oneof<uint32_t>({0u, 0x00000001u, 0x01000000u, 0x90407f00u, 0xff000000u}); break;
     case 't': v.i = (int64_t)vf::oneof<uint64_t>({1ull, 0ull, 2ull, 0x100000000ull, 0x8000000000000000ull, ~0ull}); break;
-    case 'f': case 'd': v.d = vf::oneof<double>({0.0, -0.0, 0.25, 0.5, 1.0, 1.5, 2.0, -1.0, -0.25, 1e10, -1e10, 3.0}); break;
+    case 'f': case 'd': v.d = vf::chance(80) ? vf::oneof<double>({0.0, -0.0, 0.25, 0.5, 1.0, 1.5, 2.0, -1.0, -0.25, 1e10, -1e10, 3.0}) : (double)(float)(vf::pick<int>(-3, 6) / 10.0f); break;   // also tenths (0.1f, 0.2f: not exact)
     case 's': case 'S': v.s = vf::oneof<std::string>({"", "a", "ab", "abc", "b", "abd", "A", "a b"}); break;
     case 'b': v.s = vf::oneof<std::string>({"", std::string("\0", 1), "a", std::string("a\0", 2), "ab", std::string("ab\0\0", 4), "b", "\xff", std::string("\xff\0", 2)}); break;
     default: break;
@@ -201,6 +201,21 @@ std::string vf_run(const Case &c, vf::Ctx &ctx) {
       if (r1 != r2 || memcmp(m1, m2, r1)) return std::string("rtosc_avmessage(compressed ") + N[i] + ") differs from rtosc_avmessage(expanded)";
     }
   }
+  // with a tolerance for floats (non-default options): the order is no order any more, but "compares as 0" and "is equal"
+  // still have to be the same statement, in every mix of representations
+  for (double tol : {0.1, 0.001, 0.5}) {
+    rtosc_cmp_options opt;
+    opt.float_tolerance = tol;
+    for (size_t i = 0; i < L.size(); i++)
+      for (size_t j = 0; j < L.size(); j++)
+        for (int rep = 0; rep < 4; rep++) {
+          const std::vector<rtosc_arg_val_t> &x = (rep & 1) ? B[i].comp : B[i].plain, &y = (rep & 2) ? B[j].comp : B[j].plain;
+          int r = rtosc_arg_vals_cmp(x.data(), y.data(), x.size(), y.size(), &opt);
+          int e = rtosc_arg_vals_eq(x.data(), y.data(), x.size(), y.size(), &opt);
+          if ((r == 0) != (e != 0)) return std::string("with float tolerance ") + std::to_string(tol) + ": cmp(" + N[i] + "," + N[j] + ")=" + std::to_string(r) + " but eq=" + std::to_string(e);
+        }
+  }
+  ctx.count("checked.with_float_tolerance");
   for (size_t i = 0; i < L.size(); i++)
     for (size_t j = 0; j < L.size(); j++) {
       int r = CMP(B[i].plain, B[j].plain);
